@@ -93,8 +93,9 @@ def evict_cache(keep=10):
     ents.sort(reverse=True)
     now = time.time()
     for mt, e in ents[keep:]:
-        # never a state touched within the last two hours: another check (self-test of a patched tree) may be using it
-        if e != tree_hash() and now - mt > 7200:
+        # not a state touched within the last hour: another check may be using it (runs against patched trees keep their
+        # cache in their own scratch directory, so this directory only ever sees a handful of states)
+        if e != tree_hash() and now - mt > 3600:
             shutil.rmtree(os.path.join(CACHE, e), ignore_errors=True)
 
 
